@@ -113,6 +113,12 @@ theorem stable_in_context (env : FilterEnv) (fenv : FormatEnv) (f : Option Fid) 
     (hs : Stable (tokRes env f) (piece env fenv f)) (hr : HeadRun env fenv p') : StableAt env fenv f p' :=
   stableAt_of_stable hs hr
 
+/-- a wildcard without formatter whose handler answers with the text it consumed (`re`, `path`)
+keeps the first character of its text, so a plain or `int` wildcard directly before it is still
+stable where it stands (`stable_in_context` with `HeadRun`) -/
+theorem text_filter_keeps_head (env : FilterEnv) (fenv : FormatEnv) (g : Fid) (ht : TextFilter env g) :
+    HeadKeep (tokRes env (some g)) (piece env fenv (some g)) := headKeep_text env fenv g ht
+
 /- OPEN: theorem url_rematch_all — the statement of `url_rematch_partial` for *every* rule of the
    property's domain (`float`, `re`, `path` wildcards included, an `int` wildcard anywhere),
    with the real handlers and formatters standing for `env`/`fenv` and no stability hypothesis:
@@ -168,6 +174,23 @@ example :
 /-- `Stable`'s premise is met: the `int` handler accepts `-007x` with value -7 -/
 example : tokRes (withInt noEnv) (some "int(None)".toList) "-007x".toList = some ⟨intVal (-7), 4, none⟩ := by
   decide
+
+/-- the hypothesis `AllStable` of `url_rematch` holds for that rule -/
+example : AllStable (withInt noEnv) noFmt exRoute.syms :=
+  allStable_plainInt noEnv noFmt exRoute.syms (by decide) (by decide)
+
+/-- `stable_int_wildcard`: both spellings of the `int` filter's identity are `int` filters -/
+example : isIntFid "int(None)".toList = true ∧ isIntFid "int()".toList = true := by decide
+
+/-- `text_filter_keeps_head`: a handler that answers with the first character it is given -/
+example : TextFilter (fun _ s => some ⟨.str (s.take 1), 1, none⟩) "re(.)".toList :=
+  ⟨by decide, by intro s r h; cases h; rfl⟩
+
+/-- `stable_in_context`: `HeadRun` holds in front of a literal, at the end of the rule, and in
+front of a plain wildcard -/
+example : HeadRun (withInt noEnv) noFmt [.lit '/', .tok none] ∧ HeadRun (withInt noEnv) noFmt [] ∧
+    HeadRun (withInt noEnv) noFmt [.tok none, .lit 'a'] :=
+  ⟨trivial, trivial, headKeep_plain _ _, trivial⟩
 
 end NonVacuity
 
